@@ -1036,6 +1036,18 @@ func init() {
 		l.obj["example"] = Pick(r, []any{jobj("id", 1.0), jobj("pw", "s")})
 	})
 	simple("schema-external-docs-no-url", false, ofKind("Schema"), set("externalDocs", jobj("description", "no url")))
+	// the same violations inside a schema without any constraint (it accepts every value; it is still checked)
+	emptied := func(f func(l *c04Loc)) func(r *Rng, l *c04Loc) {
+		return func(r *Rng, l *c04Loc) {
+			for k := range l.obj {
+				delete(l.obj, k)
+			}
+			f(l)
+		}
+	}
+	simple("empty-schema-unknown-field", false, ofKind("Schema"), emptied(func(l *c04Loc) { l.obj["tpye"] = "string" }))
+	simple("empty-schema-external-docs-no-url", false, ofKind("Schema"), emptied(func(l *c04Loc) { l.obj["externalDocs"] = jobj("description", "no url") }))
+	simple("empty-schema-extension", true, ofKind("Schema"), emptied(func(l *c04Loc) { l.obj["x-note"] = "fine" }))
 	// links, security schemes, flows, servers, tags, external docs
 	simple("link-neither", false, ofKind("Link"), func(r *Rng, l *c04Loc) { delete(l.obj, "operationId"); delete(l.obj, "operationRef") })
 	simple("link-both", false, ofKind("Link"), set("operationId", "getPet", "operationRef", "#/paths/~1pets/get"))
